@@ -109,6 +109,9 @@ def generate(rng, tier: str, index: int) -> dict:
         attrs.pop('generic', None)
         if len(attrs.get('large', [])) > 3:
             attrs['large'] = attrs['large'][:3]
+        if k == 'big' and 'aspath' in attrs and not (kind['peer_asn4'] or kind['peer_as'] > 65535):
+            # towards a 2-byte peer an AS above 65535 adds an AS4_PATH the size estimate below does not know about
+            attrs['aspath'] = [[t, [a if a <= 65535 else 64999 for a in seg]] for t, seg in attrs['aspath']]
         v6 = rng.chance(0.3)
         routes = []
         if k == 'many':
